@@ -15,7 +15,7 @@ func c19(c *Ctx) {
 		"(a) exactly one call site of a PacketSkipper value exists in the package, in parsePacket, outside any loop; parsePacketHeader dominates it and its result is in p.Header; the HasAdaptationField test dominates it, every path from its true edge passes parsePacketAdaptationField (result in p.AdaptationField) and that parse cannot follow the call; no payload extraction (payloadOffset, Dump, store to p.Payload) can precede it and, with a non-nil skipper, every path to them passes the call. " +
 		"(b) every return reachable from the skip-true edge is (nil, errSkippedPacket); errSkippedPacket is used nowhere else except in errors.Is(err, errSkippedPacket) in (*packetBuffer).next; on that edge control reaches the next ReadFull before any return, and from the error edge no other path reaches a read (every other error leaves the loop). " +
 		"(c) addUnlocked is called only from NextData with NextPacket's packet on the err == nil edge; (*packetAccumulator).add only from addUnlocked. " +
-		"(d) exactly one call site of a PacketsParser value, in parseData, guarded by prs != nil, outside any loop, handed ps itself, and no other use of ps can precede it; parseData has exactly two call sites, both in NextData, each dominated by the non-empty edge of its addUnlocked/dumpUnlocked result and executed at most once per result. " +
+		"(d) exactly one call site of a PacketsParser value, in parseData, guarded by prs != nil, outside any loop, handed ps itself, and no other use of ps can precede it; every call site of parseData (in NextData or in a helper its drain loop lives in) takes the direct result of an addUnlocked/dumpUnlocked call of the same function, is dominated by the non-empty edge of that result and executes at most once per result; no such result feeds two sites, and both kinds of source are present. " +
 		"(e) every return reachable from the skip=true edge carries exactly extract #0 of prs(ps) and no default parsing runs there. " +
 		"(f) for every nil-error return reachable from the skip=false edge, and separately for every incoming branch of a shared return block, the returned ds must not derive (def-use, reaching stores of the named result) from extract #0 of prs(ps). " +
 		"NOT decided: equality with the output of the pre-filtered stream as a whole (in particular the interplay of a deleted packet with the continuity check of C06: deleting a packet creates a counter gap exactly as in the filtered stream, which is what the property asks); what a user predicate/parser does with the pointers it receives; panics in callbacks."
